@@ -1,8 +1,8 @@
 #!/bin/bash
 # usage: tools/runall.sh [tier] [ids...]
 tier=${1:-quick}; shift
-ids=${@:-$(python3 -c "import json;print(' '.join(sorted(json.load(open('/verif/checks.json')))))")}
-cd /verif
+cd "$(dirname "$0")/.."; ids=${@:-$(python3 -c "import json;print(' '.join(sorted(json.load(open('checks.json')))))")}
+cd "$(dirname "$0")/.."
 for id in $ids; do
   s=$(date +%s)
   out=$(./check $id --tier $tier 2>&1); rc=$?
